@@ -385,7 +385,4 @@ RefSane ==
     /\ (Emit # "none" /\ phase = "prompt" /\ Len(hist) > 0 /\ hist[Len(hist)].op \in {"start", "cont"}) =>
            hist[Len(hist)].stop # <<>>
 
-\* vacuity witnesses (each must be REACHABLE: checked as invariants that TLC must violate, see c18.py)
-NeverDeferredActivation == ~(AtPrompt /\ \E v \in impl.active : reqs[v.rid].obj = "lib" /\ cfg.lib = "dlopen" /\ ~reqs[v.rid].m)
-NeverReload == ~(cfg.lib = "dlopen" /\ ip > 14 /\ Mapped(bias, "lib") /\ \E i \in 1..Len(reqs) : reqs[i].obj = "lib")
 =============================================================================
